@@ -42,7 +42,7 @@ ASSUMPTIONS = [
     "BD text is LF-terminated (nxpimage reads BD files in text mode); CR characters are not generated",
 ]
 FLOORS = {"has_operator": 0.30, "multi_statement": 0.15, "kind:fill": 0.05, "kind:load": 0.08, "stmt:erase": 0.05, "several_per_line": 0.03,
-          "has_comment": 0.10, "op:*": 0.03, "ident_ref": 0.10}
+          "has_comment": 0.10, "op:*": 0.03, "ident_ref": 0.10, "unsupported": 0.04}
 
 RISKY = ("multi_quote_line", "multi_apos_line")
 _STATE: dict = {}
@@ -806,7 +806,7 @@ def calibrate(ctx) -> None:
 # ------------------------------------------------------------------ parts
 def parts(ctx):
     return [
-        HypPart("programs", G.valid_program(), make_run_valid(ctx.work), {"quick": 3000, "thorough": 150000}),
-        HypPart("expressions", G.expression_program(), make_run_valid(ctx.work), {"quick": 1500, "thorough": 100000}),
-        HypPart("unsupported", G.unsupported_program(), make_run_unsupported(ctx.work), {"quick": 600, "thorough": 30000}),
+        HypPart("programs", G.valid_program(), make_run_valid(ctx.work), {"quick": 2400, "thorough": 150000}),
+        HypPart("expressions", G.expression_program(), make_run_valid(ctx.work), {"quick": 1200, "thorough": 100000}),
+        HypPart("unsupported", G.unsupported_program(), make_run_unsupported(ctx.work), {"quick": 480, "thorough": 30000}),
     ]
